@@ -182,6 +182,11 @@ def install(w):
                 "C03.use.schema": f"implies(bool({A_('set_schema')}), self._conn.schema == {A_('set_schema')} and self._conn.schema_set and implies(not {A_('set_database')}, self._conn.database == old(self._conn.database)))",
                 # after USE DATABASE d DuckDB is at d.main: conn.schema must not keep naming a schema of the previous database
                 "C03.use.database_schema_consistent": f"implies(bool({A_('set_database')}) and not {A_('set_schema')}, self._conn.schema is None or self._conn.schema == 'MAIN')",
+                # C09: declared comments / text lengths are recorded, on this cursor's connection, for the statement's own catalog.schema.table
+                "C09.comment.recorded": f"implies(bool({A_('table_comment')}) and not {CMD}.startswith('DROP'), "
+                f"old(\"values ('\" + (seq_at(arg(transformed, 'table_comment'), 0).catalog or self._conn.database) + \"', '\" + (seq_at(arg(transformed, 'table_comment'), 0).db or self._conn.schema) + \"', '\" + seq_at(arg(transformed, 'table_comment'), 0).name + \"', '\" + seq_at(arg(transformed, 'table_comment'), 1) + \"')\") in trace_at({K0} + 1))",
+                "C09.text_lengths.recorded": f"implies(bool({A_('text_lengths')}) and old(find_table(transformed)) is not None and not {CMD}.startswith('DROP'), "
+                f"old('INSERT INTO ' + (find_table(transformed).catalog or self._conn.database) + '.information_schema._fs_columns_ext') in trace_at({K0} + (2 if bool({A_('table_comment')}) else 1)))",
                 "C03.ctx.else_unchanged": f"implies(not {A_('set_database')} and not {A_('set_schema')} and not {CMD}.startswith('DROP'), {CTX_SAME})",
             },
             props=["C03", "C04", "C05", "C06", "C07", "C13"],
